@@ -121,6 +121,20 @@ def rule_permute(ctx):
                     if y.get("k") == "Path" and y.get("local") in inits and depth < 4 and through(inits[y["local"]], depth + 1):
                         return True
                 return False
+            # positions by contract: the usize parameters of the trait method, and what ranges over `0..length`
+            pos_locals = {b["local"] for p_ in fn["params"][1:] for b in pat_bindings(p_)}
+            for y in walk(fn["body"]):
+                if y.get("k") == "MethodCall" and y["name"] in ("map", "for_each", "filter", "filter_map", "fold") and y["args"] and strip(y["args"][0]).get("k") == "Closure":
+                    rv = peel_refs(y["recv"])
+                    while rv.get("k") in ("Paren", "DropTemps"):
+                        rv = peel_refs(rv["e"])
+                    if rv.get("k") == "Struct" and "Range" in (c.ty(rv.get("t")) or ""):
+                        for p_ in strip(y["args"][0])["params"]:
+                            pos_locals |= {b["local"] for b in pat_bindings(p_)}
+
+            def is_position(e):
+                e = peel_refs(e)
+                return e.get("k") == "Path" and e.get("local") in pos_locals
             for y in walk(fn["body"]):
                 f = ix = None
                 if y.get("k") == "Index":
@@ -135,6 +149,10 @@ def rule_permute(ctx):
                 thr = through(ix)
                 if f in swapped and thr:
                     res.violate("%s : swapped-field-read-through-table:%s" % (key, f), "`self.%s` is permuted by swap_indices (it is in position space) but read with `%s`, which goes through kernel_indices: after a swap it is the entry of another variable" % (f, r.e(ix)[:40]), fn_loc(fn, y.get("ln")))
+                elif f not in swapped and not thr and not is_position(ix):
+                    # an index of unknown space (the parameter of a closure that a helper calls with whatever it computed):
+                    # neither a position by the trait's contract nor visibly taken from the table
+                    res.undecided("%s : index-space:%s" % (key, f), "`self.%s[%s]`: whether `%s` is a position or a sample index is not visible here (fail closed)" % (f, r.e(ix)[:30], r.e(ix)[:30]), fn_loc(fn, y.get("ln")))
                 elif f not in swapped and not thr:
                     res.violate("%s : unswapped-field-read-by-position:%s" % (key, f), "`self.%s` is left alone by swap_indices (it is in sample space) but read with `%s`, a position that did not go through kernel_indices: right until the first swap only, i.e. until shrinking moves a variable" % (f, r.e(ix)[:40]), fn_loc(fn, y.get("ln")))
                 else:
